@@ -9,6 +9,9 @@ F64 = z3.Float64()
 F32 = z3.Float32()
 
 _fresh = [0]
+def reset_fresh():
+    _fresh[0] = 0
+
 def fresh(name, sort=I):
     _fresh[0] += 1
     return z3.Const('%s!%d' % (name, _fresh[0]), sort)
